@@ -505,11 +505,11 @@ _scn_alloc = dict(_scn, harness="harness/scn_alloc.c", flags=_scn["flags"] + ["-
 _STEPS = [(0, "add", 11), (1, "fetch", 27), (2, "change", 25), (3, "remove", 23), (4, "unfetch", 6), (5, "set", 16), (6, "get", 14), (7, "config", 7), (8, "info", 24),
           (9, "fetch_grow", 28)]     # the third subscription to an element: its subscription table (initially 2 slots) has to grow
 for _s, _nm, _n in _STEPS:
-    for _k in range(_n + 1):
+    for _k in range(_n + 1 + 3):      # 3 spare attempts: a tree whose request allocates a little more is still covered attempt by attempt
         O(id="C15.alloc_failure_%s_k%02d" % (_nm, _k), props=["C15", "C06", "C07"], entry="harness_alloc_failure",
           defines=["STEP=%d" % _s, "KBASE=%d" % _k, "NALLOC=%d" % _n],
           functions=["parse_message", "handle_method", "send_response", "the handler of '%s' and everything it calls" % _nm, "free_peer_resources"],
-          symbolic="state value (the failing allocation attempt, #%d of %d, is fixed per obligation: %s)" % (_k, _n, "fault-free run" if _k == _n else "daemon or JSON-library allocation"),
+          symbolic="state value (the failing allocation attempt, #%d of %d, is fixed per obligation: %s)" % (_k, _n, "fault-free run" if _k >= _n else "daemon or JSON-library allocation"),
           assumes=["set-up requests succeed (no fault)"],
           bounds="one '%s' request in which allocation attempt %d fails, then a fault-free change, then both peers disconnect; 2 peers, <= 1 element, <= 3 fetches" % (_nm, _k),
           **_scn_alloc)
@@ -914,3 +914,23 @@ for _c, _nm, _r in ((0, "member", "allowed"), (1, "set_group_only", "refused"), 
     O(id="C08.call_rights_" + _nm, props=["C08", "C04"], entry="harness_call_rights", defines=["CALLCASE=%d" % _c], reach=[_r],
       functions=_AF + ["set_or_call", "fill_access", "has_access", "get_groups"], symbolic="call argument", assumes=["set-up requests succeed"],
       bounds="method 'm' with fetchGroups/callGroups [g1]; caller: uc (callGroups g1) / us (fetch+set groups g1 only) / unauthenticated", **_scn_auth)
+
+# ------------------------------------------------------------------------------------------------ "outside" notes brought up to date
+PROPERTY_NOTES["C01"]["outside"] = ("more than 4 peers / 1 element / 4 subscriptions per skeleton; both transports (the transport is a recording stub); arbitrary "
+                                    "interleavings with disconnects (teardown steps are C05/C03 obligations, one composite scenario C05.peer_leaves_with_everything); "
+                                    "table growth beyond one doubling (2 -> 4 slots).")
+PROPERTY_NOTES["C02"]["outside"] = ("the JSON text level (parsing/rendering is the third-party library, replaced by a tree model); batches longer than 4; "
+                                    "ids of type object/array/true are driven (C06.shape_id_*: no response can be built for them, none is sent), null/false ids are not.")
+PROPERTY_NOTES["C04"]["outside"] = "arbitrary path strings (paths are short constants; the table hash is abstracted, collisions are C17's subject)."
+PROPERTY_NOTES["C08"]["outside"] = ("credential files as text; more than 3 groups / 9 users (the 32-group limit: 1 << j on int is read, not driven); both transports.")
+PROPERTY_NOTES["C12"]["outside"] = ("the accept digest itself (SHA-1 stubbed: hashing loop over symbolic input is not encoded); 'same JSON-RPC behaviour as the raw transport' "
+                                    "(both call parse_message: C12.text_to_dispatcher checks the hand-over, not the equality); payloads > 10 bytes (16 in the thorough tier) except the 125/126 boundary; permessage-deflate (C19).")
+PROPERTY_NOTES["C13"]["outside"] = ("http_parser.c itself (contract stub: consumes at most what it is given, reports an error by stopping early, sets upgrade on a complete upgrade request); "
+                                    "more than one header line per step (C13.header_line_step is one step from the header phase).")
+PROPERTY_NOTES["C16"]["outside"] = ("strings longer than 4 bytes (5 in the thorough tier) at the match functions; glibc's own strcasecmp/strcasestr/strstr (reference implementations stand in "
+                                    "for them: the obligation checks cjet's use of them - argument order, length arithmetic); locales other than \"C\".")
+PROPERTY_NOTES["C18"]["outside"] = ("texts longer than 17 bytes through the auto-aligned front end in the quick tier (25 and 33 bytes at selected alignments in the thorough tier; its three "
+                                    "sub-calls are covered by the step/word lemmas for any length); big-endian hosts.")
+PROPERTY_NOTES["C13"]["composition"] = PROPERTY_NOTES["C13"]["composition"].rstrip() + (" header_line_step: one header line in the HTTP phase: a line the parser rejects is answered with one 400 "
+                                    "and the connection is released once, end of stream releases it without a response, a completed upgrade switches to frame reading, otherwise the next line is requested; no websocket frame is written before the upgrade.")
+PROPERTY_NOTES["C08"]["composition"] = PROPERTY_NOTES["C08"]["composition"].rstrip() + " call_rights_*: calling a method follows the call groups (a member of the set group only, or an unauthenticated peer, is refused)."
